@@ -142,7 +142,7 @@ func runL[T any](c lcodec[T], call func(lhs, rhs []T) []slice.Edit[T], f []strin
 	same := false
 	switch {
 	case len(f) == 8 && f[3] == "E":
-		l, r, lx, rx := tr.UnInts(f[4]), tr.UnInts(f[5]), tr.UnInts(f[6]), tr.UnInts(f[7])
+		l, r, lx, rx := unInts5(f[4]), unInts5(f[5]), tr.UnInts(f[6]), tr.UnInts(f[7]) // unInts5: also "v*n", "a~b" (round5.go)
 		larr = encAll(append(append([]int{guardL, guardL}, l...), lx...))
 		rarr = encAll(append(append([]int{guardR, guardR}, r...), rx...))
 		lhs = larr[2 : 2+len(l) : len(larr)]
